@@ -84,6 +84,12 @@ FormatOne(n, tok) ==
   ELSE IF tok[Len(tok)] = 49 /\ \A k \in 1..(Len(tok) - 1) : tok[k] = 48 THEN PadTo(Decimal(n), Len(tok))
   ELSE Decimal(n)
 
+(* 7.7.1 grouping: "grouping-separator gives the separator used as a grouping (e.g. thousands) separator in decimal   *)
+(* numbering sequences, and the optional grouping-size specifies the size (normally 3) of the grouping"; both or neither. *)
+RECURSIVE GroupDigits(_, _, _)
+GroupDigits(ds, g, sep) == IF g <= 0 \/ Len(ds) <= g THEN ds
+                           ELSE GroupDigits(SubSeq(ds, 1, Len(ds) - g), g, sep) \o sep \o SubSeq(ds, Len(ds) - g + 1, Len(ds))
+
 (* 7.7.1: prefix (leading non-alnum run), format tokens with their preceding separators, suffix;  *)
 (* the k-th number uses the k-th token (the last one when there are fewer), preceded by the        *)
 (* separator that precedes that token ("." when there is none / when the token is reused, the      *)
